@@ -598,8 +598,20 @@ package grpcgcp
 // 9, 10: push the current connectivity of every pool to every MultiEndpoint
 //@   loop 9 invariant lockinv(gme.mu, "G0", "G1", "G2", "G3")
 //@   loop 10 invariant lockinv(gme.mu, "G0", "G1", "G2", "G3")
+// C17 on the GCPMultiEndpoint side: the stored configuration is a fresh deep copy of the caller's object, equal to it
+// when construction ends (nothing edits the copy after it was taken), and GCPConfig() hands out a fresh equal copy of that
+//@ pred copyOfPool(r *pb.ChannelPoolConfig, m *pb.ChannelPoolConfig) := fresh(r) && r.MaxSize == m.MaxSize && r.IdleTimeout == m.IdleTimeout && r.MaxConcurrentStreamsLowWatermark == m.MaxConcurrentStreamsLowWatermark && r.MinSize == m.MinSize && r.FallbackToReady == m.FallbackToReady && r.UnresponsiveDetectionMs == m.UnresponsiveDetectionMs && r.UnresponsiveCalls == m.UnresponsiveCalls && r.BindPickStrategy == m.BindPickStrategy
+//@ pred copyOfMethod(r *pb.MethodConfig, m *pb.MethodConfig) := r != nil && fresh(r) && len(r.Name) == len(m.Name) && (forall j, x in r.Name :: x == m.Name[j]) && (r.Affinity == nil) == (m.Affinity == nil) && (m.Affinity != nil ==> fresh(r.Affinity) && r.Affinity.Command == m.Affinity.Command && r.Affinity.AffinityKey == m.Affinity.AffinityKey)
+//@ pred copyOfApi(r *pb.ApiConfig, m *pb.ApiConfig) := r != nil && fresh(r) && (r.ChannelPool == nil) == (m.ChannelPool == nil) && (m.ChannelPool != nil ==> copyOfPool(r.ChannelPool, m.ChannelPool)) && len(r.Method) == len(m.Method) && (forall j, x in r.Method :: m.Method[j] != nil ==> copyOfMethod(x, m.Method[j]))
+//@ func (gme *GCPMultiEndpoint) GCPConfig
+//@   ensures [C17.gme-copy] gme.gcpConfig == old(gme.gcpConfig) && (gme.gcpConfig == nil) == ($ret0 == nil)
+//@   ensures [C17.gme-copy] gme.gcpConfig != nil ==> copyOfApi($ret0, gme.gcpConfig)
 //@ func NewGCPMultiEndpoint
 //@   requires meOpts != nil
+//@   ensures [C17.gme-stored-copy] $ret1 == nil && meOpts.GRPCgcpConfig != nil ==> $ret0.gcpConfig != nil && fresh($ret0.gcpConfig) && ($ret0.gcpConfig.ChannelPool == nil) == (meOpts.GRPCgcpConfig.ChannelPool == nil) && len($ret0.gcpConfig.Method) == len(meOpts.GRPCgcpConfig.Method)
+//@   ensures [C17.gme-stored-copy-pool] $ret1 == nil && meOpts.GRPCgcpConfig != nil && meOpts.GRPCgcpConfig.ChannelPool != nil ==> copyOfPool($ret0.gcpConfig.ChannelPool, meOpts.GRPCgcpConfig.ChannelPool)
+//@   ensures [C17.gme-stored-copy-methods] $ret1 == nil && meOpts.GRPCgcpConfig != nil ==> (forall j, x in $ret0.gcpConfig.Method :: meOpts.GRPCgcpConfig.Method[j] != nil ==> x != nil && fresh(x) && len(x.Name) == len(meOpts.GRPCgcpConfig.Method[j].Name) && (x.Affinity == nil) == (meOpts.GRPCgcpConfig.Method[j].Affinity == nil))
+//@   ensures [C17.gme-caller-untouched] meOpts.GRPCgcpConfig == entry(meOpts.GRPCgcpConfig) && (meOpts.GRPCgcpConfig != nil ==> meOpts.GRPCgcpConfig.ChannelPool == entry(meOpts.GRPCgcpConfig.ChannelPool) && len(meOpts.GRPCgcpConfig.Method) == entry(len(meOpts.GRPCgcpConfig.Method)))
 //@   ensures [C16.ctor-fail] $ret1 != nil ==> $ret0 == nil
 //@   ensures [C16.ctor-ok] $ret1 == nil ==> $ret0 != nil && len($ret0.mes) > 0
 // a failed construction leaves no pool (hence no connection and no monitor) behind
